@@ -22,6 +22,10 @@ def gen(rng, tier, boost):
         for c, tag in jc.damaged_cases(rng, w, out, full=(tier != "quick" or len(out.u) <= 80)):
             cases.append(c)
             dist[tag] += 1
+    nh = (1500 if tier == "quick" else 30000) * boost
+    for _ in range(nh):
+        cases.append(jc.h_case(rng, rng.randrange(4)))
+    dist["stream_history"] = nh
     return cases, dist
 
 
